@@ -28,11 +28,19 @@ def main():
 
     ok = run(lines, "ok")
     print("unmodified trace accepted:", ok["ok"], "(%d events)" % len(lines))
-    # corrupt one logged field: the version counter of one analysis
-    i = next(k for k, l in enumerate(lines) if l["ev"] == "analyze" and k > len(lines) // 2)
+    # corrupt one logged field: drop a definition from the projected state of one analysis
+    i = next(k for k, l in enumerate(lines) if l["ev"] == "analyze" and any(l["post"]["defs"][n] for n in l["post"]["defs"]))
     bad = json.loads(json.dumps(lines))
-    bad[i]["post"]["version"] += 1
+    nm = next(n for n in bad[i]["post"]["defs"] if bad[i]["post"]["defs"][n])
+    bad[i]["post"]["defs"][nm] = bad[i]["post"]["defs"][nm][1:]
     r1 = run(bad, "corrupt")
+    # a version counter that does not grow on a successful analysis (stale caches) must be rejected too
+    i2 = next(k for k, l in enumerate(lines) if l["ev"] == "analyze" and l["m"]["valid"] and k > 3)
+    bad = json.loads(json.dumps(lines))
+    prev = max([l["post"]["version"] for l in bad[:i2] if l["ev"] == "analyze"] + [0])
+    bad[i2]["post"]["version"] = prev
+    r1b = run(bad, "version")
+    print("non-growing version rejected:", not r1b["ok"])
     print("corrupted field rejected:", not r1["ok"], "|", (r1["rejected"] or "")[:120])
     # corrupt one query answer
     j = next((k for k, l in enumerate(lines) if l["ev"] == "avail" and any(v["file"] != "NOFILE" for v in l["ans"].values())), None)
@@ -47,6 +55,6 @@ def main():
     k = next(k for k, l in enumerate(lines) if l["ev"] == "analyze" and l["m"]["valid"] and any(it["k"] == "def" for it in l["m"]["items"]))
     r3 = run(lines[:k] + lines[k + 1:], "dropped")
     print("dropped event rejected:", not r3["ok"])
-    good = ok["ok"] and not r1["ok"] and not r2["ok"] and not r3["ok"]
+    good = ok["ok"] and not r1["ok"] and not r1b["ok"] and not r2["ok"] and not r3["ok"]
     print("SELFTEST", "PASS" if good else "FAIL")
     return 0 if good else 2
